@@ -940,6 +940,7 @@ func (m *Manager) decodeSessionExpiry(ctx *loadContext, id string, state *vlpers
 	var will *mqttp.Publish
 	var willIn uint32
 	var expireIn uint32
+	var expireTotal *uint32
 
 	// if persisted state has delayed will lets check if it has not elapsed its time
 	if len(state.Expire.Will) > 0 {
@@ -955,14 +956,11 @@ func (m *Manager) decodeSessionExpiry(ctx *loadContext, id string, state *vlpers
 			}
 
 			willAt := since.Add(time.Duration(willIn) * time.Second)
-			if left := time.Until(willAt); left <= 0 {
+			if time.Until(willAt) <= 0 {
 				// will delay elapsed. notify keep in list and publish when all persisted sessions loaded
 				ctx.delayedWills = append(ctx.delayedWills, will)
 				will = nil
 				willIn = 0
-			} else {
-				// the timer is started anew: only what is left of the delay has to pass
-				willIn = uint32((left + time.Second - 1) / time.Second)
 			}
 		}
 	}
@@ -971,10 +969,11 @@ func (m *Manager) decodeSessionExpiry(ctx *loadContext, id string, state *vlpers
 		var val int
 		if val, err = strconv.Atoi(state.Expire.ExpireIn); err == nil {
 			expireIn = uint32(val)
+			total := expireIn
+			expireTotal = &total
 			expireAt := since.Add(time.Duration(expireIn) * time.Second)
 
-			left := time.Until(expireAt)
-			if left <= 0 {
+			if time.Until(expireAt) <= 0 {
 				// persisted session has expired, wipe it
 				if will != nil {
 					// the session end is the latest moment for its delayed will
@@ -984,11 +983,6 @@ func (m *Manager) decodeSessionExpiry(ctx *loadContext, id string, state *vlpers
 				delete(ctx.preloadConfigs, id)
 
 				return errSessionExpired
-			}
-
-			// the timer is started anew: only what is left of the interval has to pass
-			if secs := (left + time.Second - 1) / time.Second; secs < time.Duration(expireIn) {
-				expireIn = uint32(secs)
 			}
 		} else {
 			m.log.Error("Decode expire at", zap.String("clientId", id), zap.Error(err))
@@ -1010,17 +1004,21 @@ func (m *Manager) decodeSessionExpiry(ctx *loadContext, id string, state *vlpers
 			ctx.preloadConfigs[id] = &preloadConfig{}
 		}
 
-		// the timer is started with what is left of the intervals: they count from now on
-		var expiringSince time.Time
-
+		// the intervals go on counting from where they started (which is also what the next shutdown
+		// persists again): the timer is told how much of them has passed
 		ctx.preloadConfigs[id].exp = &expiryConfig{
 			expiryEvent:   m,
 			messenger:     m.TopicsMgr,
 			createdAt:     createdAt,
-			expiringSince: expiringSince,
+			expiringSince: since,
 			will:          will,
 			willIn:        willIn,
-			expireIn:      &expireIn,
+			total:         expireTotal,
+			elapsed:       time.Since(since),
+		}
+
+		if expireTotal != nil {
+			ctx.preloadConfigs[id].exp.expireIn = &expireIn
 		}
 	}
 
